@@ -144,8 +144,25 @@ def positional(call):
     return ast.copy_location(ast.Call(func=f, args=pos, keywords=list(by.values())), call)
 
 
+_pat_cache = {}
+
+
 def parse_pat(s):
-    return ast.parse(s, mode='eval').body
+    """pattern text -> AST, put through the expression-level rewrites of the source normal form (type(x) -> x.__class__,
+    np.matmul -> @, membership in a display -> ==/or, ...) so that patterns may be written in any of the equivalent spellings"""
+    hit = _pat_cache.get(s)
+    if hit is None:
+        tree = ast.parse(s, mode='eval')
+        try:
+            from .normalize import _Normalise
+            tree = _Normalise().visit(tree)
+            ast.fix_missing_locations(tree)
+        except Exception:
+            tree = ast.parse(s, mode='eval')
+        hit = tree.body
+        _pat_cache[s] = hit
+    import copy
+    return copy.deepcopy(hit)
 
 
 def is_meta(n):
